@@ -289,6 +289,7 @@ class BaseState(ABC):
             Returns a tuple, first element is POVM measurement result, second element
             is a dictionary with the other potentional measurement outcomes
         """
+        from photon_weave.state.composite_envelope import CompositeEnvelope
         from photon_weave.state.envelope import Envelope
         from photon_weave.state.polarization import Polarization
 
